@@ -405,6 +405,26 @@ def c10_descs(tier):
     return out
 
 
+def syntax_descs(tier):
+    """token-level corner cases: identifiers that begin with keywords, large literals, every declaration kind"""
+    out = []
+    out.append(desc("big", [enum("enumx", 8, [tag("packet_a", 1), tag("ifx", 2), trange("struct_r", 3, 9, [tag("group1", 4)]), tother("test_")]),
+                            struct("structure", [scalar("iffy", 8), typedef("enum_", "enumx")]),
+                            packet("packets", [scalar("little_endian_packetsx", 8), typedef("s", "structure"), scalar("_x_", 8) if False else scalar("x_", 8)])],
+                    name="syn_keywordish"))
+    out.append(desc("little", [enum("E", 64, [tag("A", 0), tag("B", 0xffffffffffffffff), trange("R", 0x100, 0xffffffffffff, [tag("M", 0x8000000000)])]),
+                               packet("P", [fixed(0xdeadbeefcafe, 48), typedef("e", "E"), fixedenum("B", "E")])], name="syn_bigints"))
+    out.append(desc("little", [custom("CF", 24, "some function"), custom("UF", None, "other"), checksum("CS", 16, "crc 16"),
+                               groupdecl("G", [scalar("g", 8), typedef("h", "CF")]),
+                               packet("P", [checksum_start("c"), group("G", [cons("g", 200)]), typedef("u", "UF"), typedef("c", "CS")])],
+                    name="syn_all_decls"))
+    out.append(desc("little", [packet("A", [scalar("f", 1), reserved(7), scalar("o", 16, cond=("f", 1)), size("_payload_", 8), payload(mod=12)]),
+                               packet("B", [count("x", 8), array("x", 8), padding(16), elementsize("y", 8), array("y", "A", count=2),
+                                            array("z", 24, mod=3)], parent="A", cons=[cons("o", 7)]),
+                               struct("S", [body()]), struct("T", [scalar("t", 8)], parent="S")], name="syn_all_fields"))
+    return out
+
+
 def build(tier="quick"):
     ds = []
     for f in (bitfield_descs, enum_descs, array_descs, payload_descs, optional_descs, struct_descs, custom_descs,
